@@ -154,6 +154,7 @@ func (s *simSender) Sub(ids []hotstuff.ID) (core.Sender, error) {
 func (s *simSender) RequestBlock(_ context.Context, hash hotstuff.Hash) (*hotstuff.Block, bool) {
 	w := s.w
 	b, ok := w.fetch(s.nd, hash)
+	w.logf("FETCH %s %s ok=%v", s.nd, w.reg.sym(hash), ok)
 	for _, f := range w.hooks.onFetch {
 		f(s.nd, hash, b, ok)
 	}
@@ -178,7 +179,7 @@ func (w *World) fetch(nd *Node, hash hotstuff.Hash) (*hotstuff.Block, bool) {
 		if peer == nd || peer.id == nd.id || peer.crashed || peer.pausedUntil > w.now() {
 			continue
 		}
-		if !w.net.connected(nd.addr, peer.addr, w.now()) {
+		if !(w.syncPhaseFor(nd) && w.syncPhaseFor(peer)) && !w.net.connected(nd.addr, peer.addr, w.now()) {
 			continue
 		}
 		if w.adv != nil {
